@@ -803,9 +803,24 @@ func Regex(ctx *context.Context, left, right value.Value) (value.Value, error) {
 	}
 }
 
+// matchesAcl reports whether the ip matches the ACL.
+// The most specific entry (longest prefix) that contains the address decides: the address
+// matches unless that entry is negated with "!". An entry without mask is a single host.
+// see: https://www.fastly.com/documentation/reference/vcl/declarations/acl/
 func matchesAcl(acl value.Acl, ip net.IP) (bool, error) {
+	var matched bool
+	var longest int64 = -1
+
 	for _, entry := range acl.Value.CIDRs {
-		var mask int64 = 32
+		addr := net.ParseIP(entry.IP.Value)
+		if addr == nil {
+			return false, fmt.Errorf("failed to parse IP %s", entry.IP.Value)
+		}
+		// default mask is a single host, /32 for IPv4 and /128 for IPv6
+		var mask int64 = 128
+		if addr.To4() != nil {
+			mask = 32
+		}
 		if entry.Mask != nil {
 			mask = entry.Mask.Value
 		}
@@ -815,13 +830,15 @@ func matchesAcl(acl value.Acl, ip net.IP) (bool, error) {
 		if err != nil {
 			return false, fmt.Errorf("failed to parse CIDR %s", cidr)
 		}
-		if ipnet.Contains(ip) {
-			return true, nil
-		} else if entry.Inverse != nil && entry.Inverse.Value {
-			return true, nil
+		if !ipnet.Contains(ip) {
+			continue
+		}
+		if mask > longest {
+			longest = mask
+			matched = entry.Inverse == nil || !entry.Inverse.Value
 		}
 	}
-	return false, nil
+	return matched, nil
 }
 
 func NotRegex(ctx *context.Context, left, right value.Value) (value.Value, error) {
